@@ -8,5 +8,5 @@ git apply "$patch" || { echo "patch does not apply"; exit 2; }
 trap 'git -C /repo checkout -- . ' EXIT
 ids="$*"; [ "$ids" = "ALL" ] && ids=$(python3 -c "import json; print(' '.join(c['property_id'] for c in json.load(open('/verif/MANIFEST.json'))['checks']))")
 for id in $ids; do
-  ( cd /verif && timeout 600 ./ovv check "$id" ${TIER:+--tier $TIER} 2>&1 | grep -E "^(VIOLATION|KNOWN|C[0-9]+ tier|violation class|INFRA|GATE)" | head -8 )
+  ( cd /verif && timeout 600 ./ovv check "$id" ${TIER:+--tier $TIER} 2>&1 | grep -a -E "^(VIOLATION|KNOWN|C[0-9]+ tier|violation class|INFRA|GATE)" | head -8 )
 done
